@@ -42,6 +42,7 @@ def case(draw):
                               oxt=True))  # fmt: skip
         n = len(ch["seq"])
         ch["ter"] = True
+        ch.pop("altmod", None)  # names are compared as written in the file
         ch["shift"] = [40.0 * ci, 0.0, 0.0]
         if draw(st.integers(0, 2)) == 0:
             strat.add_insertion_codes(draw, ch)
